@@ -128,6 +128,9 @@ func c13Bases() []c13Base {
 		{id: "sig-two-elisions", renamable: []string{"n"},
 			lines: cat(pl("header", "@@"), pl("meta", "var n identifier"), pl("metaend", "@@"), pl("body", " func n(..., last int) (..., error) {", "-  start()", "+  run()", "   ...", " }")),
 			files: []string{"package p\n\nfunc g(a string, last int) (int, error) {\n\tstart()\n\treturn 0, nil\n}\n", "package p\n\nfunc g(last int) error {\n\tstart()\n\treturn nil\n}\n", "package p\n\nfunc g(a, b string, c bool, last int) (x, y int, err error) {\n\tstart()\n\treturn\n}\n", "package p\n\nfunc g(last int) {\n\tstart()\n}\n"}},
+		{id: "ctx-unary-operands", renamable: []string{"x"},
+			lines: cat(pl("header", "@@"), pl("meta", "var x expression"), pl("metaend", "@@"), pl("body", " total := sum(base, -offset, +x, *p, &q, <-ch)", "-foo(x)", "+bar(x)")),
+			files: []string{fnBody("total := sum(base, -offset, +a, *p, &q, <-ch)", "foo(a)"), fnBody("total := sum(base, -offset, +n, *p, &q, <-ch)", "mid()", "foo(n)"), fnBody("total := sum(base, offset, +a, *p, &q, <-ch)", "foo(a)"), fnBody("total := sum(base, -offset, +y, *p, &q, <-ch)", "foo(a)")}},
 		{id: "value-decl", renamable: []string{"x"},
 			lines: cat(pl("desc", "# value"), pl("header", "@@"), pl("meta", "var x expression"), pl("metaend", "@@"), pl("body", "-var v = foo(x)", "+var v = bar(x)")),
 			files: []string{"package p\n\nvar v = foo(1)\n", "package p\n\nfunc f() {\n\tvar v = foo(y)\n\t_ = v\n}\n", "package p\n\nvar w = foo(1)\n", "package p\n\nvar (\n\tv = foo(1)\n)\n"}},
